@@ -383,7 +383,7 @@ impl SvgElement {
 
         let mut p = Position::from(self as &SvgElement);
         if self.name == "use" {
-            if let Some(href) = self.get_attr("href") {
+            if let Some(href) = self.get_href() {
                 let elref = href.parse()?;
                 let el = ctx
                     .get_element(&elref)
@@ -492,6 +492,11 @@ impl SvgElement {
 
     pub fn pop_attr(&mut self, key: &str) -> Option<String> {
         self.attrs.pop(key)
+    }
+
+    /// Target of a `use` / `reuse` element; SVG 1.1 spells this `xlink:href`.
+    pub fn get_href(&self) -> Option<String> {
+        self.get_attr("href").or_else(|| self.get_attr("xlink:href"))
     }
 
     pub fn get_attr(&self, key: &str) -> Option<String> {
@@ -704,7 +709,7 @@ impl SvgElement {
 
         while element.name == "use" || element.name == "reuse" {
             let href = element
-                .get_attr("href")
+                .get_href()
                 .ok_or_else(|| SvgdxError::MissingAttribute("href".to_owned()))?;
             let elref = href.parse()?;
             if let Some(el) = ctx.get_element(&elref) {
